@@ -17,6 +17,7 @@ from inscripta.biocantor.gene.codon import Codon, TranslationTable
 from inscripta.biocantor.gene.interval import AbstractFeatureInterval, QualifierValue, sort_interval_lists
 from inscripta.biocantor.io.bed import RGB, BED12
 from inscripta.biocantor.io.gff3.constants import GFF_SOURCE, NULL_COLUMN, BioCantorFeatureTypes, BioCantorQualifiers
+from inscripta.biocantor.io.gff3.exc import GFF3MissingSequenceNameError
 from inscripta.biocantor.io.gff3.rows import GFFAttributes, GFFRow
 from inscripta.biocantor.location import Location, Strand, SingleInterval, CompoundInterval
 from inscripta.biocantor.parent import Parent, SequenceType
@@ -354,6 +355,9 @@ class CDSInterval(AbstractFeatureInterval):
             ``sequence_chunk`` ancestor type.
             GFF3MissingSequenceNameError: If there are no sequence names associated with this transcript.
         """
+
+        if not self.sequence_name:
+            raise GFF3MissingSequenceNameError("Must have sequence names to export to GFF3.")
 
         if not chromosome_relative_coordinates and not self.has_ancestor_of_type(SequenceType.SEQUENCE_CHUNK):
             raise NoSuchAncestorException(
